@@ -59,6 +59,7 @@ func runC14(c *Ctx, w *World, r *Report) {
 	ReportScale(w, r, names...)
 	ReportPair(w, r, names...)
 	ReportRound(w, r, names...)
+	ReportTableWidth(w, r)
 	refs := ReportBitRefs(w, r, names...)
 	reportFresh(w, r, "bitmap.Join", "bitmap.Slice")
 	if !ok {
